@@ -535,3 +535,96 @@ Example sim_nontrivial :
   let s := after sh readers [] [] v [HSet [Fld 0] (Num 5%Z)] in
   st_queue (fst (do_set sh ([], []) s [Fld 1; Fld 0] (Num 7%Z))) = [0; 2; 3].
 Proof. vm_compute. reflexivity. Qed.
+
+(** ---- order of the wake-ups ---- *)
+Lemma wake_prefix s e : exists extra, st_queue (wake s e) = st_queue s ++ extra.
+Proof.
+  unfold wake. destruct (mem_nat e (st_queue s)); cbn [st_queue];
+    [exists []; rewrite app_nil_r; reflexivity | exists [e]; reflexivity].
+Qed.
+
+Lemma fold_wake_prefix l : forall s, exists extra, st_queue (fold_left wake l s) = st_queue s ++ extra.
+Proof.
+  induction l as [|e l IH]; intros s; cbn [fold_left].
+  - exists []. rewrite app_nil_r. reflexivity.
+  - destruct (IH (wake s e)) as [x Hx]. destruct (wake_prefix s e) as [y Hy].
+    exists (y ++ x). rewrite Hx, Hy, app_assoc. reflexivity.
+Qed.
+
+Lemma notify_all_prefix ts : forall s, exists extra, st_queue (notify_all s ts) = st_queue s ++ extra.
+Proof.
+  unfold notify_all. induction ts as [|t ts IH]; intros s; cbn [fold_left].
+  - exists []. rewrite app_nil_r. reflexivity.
+  - destruct (IH (notify_trig s t)) as [x Hx].
+    assert (Hy : exists y, st_queue (notify_trig s t) = st_queue s ++ y).
+    { unfold notify_trig. apply (fold_wake_prefix (subs_of t (st_subs s))). }
+    destruct Hy as [y Hy]. exists (y ++ x). rewrite Hx, Hy, app_assoc. reflexivity.
+Qed.
+
+Lemma notify_all_app s ts1 ts2 : notify_all s (ts1 ++ ts2) = notify_all (notify_all s ts1) ts2.
+Proof. unfold notify_all. apply fold_left_app. Qed.
+
+(** if the first notified trigger that [e1] subscribes to comes strictly before the first one
+    of [e2], then [e1] is queued before [e2] *)
+Lemma notify_all_order n s ts e1 e2 i1 t1 :
+  consistent n s -> st_queue s = [] ->
+  nth_error ts i1 = Some t1 -> sub_in s e1 t1 ->
+  (forall j t, j <= i1 -> nth_error ts j = Some t -> ~ sub_in s e2 t) ->
+  In e2 (st_queue (notify_all s ts)) ->
+  exists q1 q2, st_queue (notify_all s ts) = q1 ++ q2 /\ In e1 q1 /\ ~ In e2 q1 /\ In e2 q2.
+Proof.
+  intros Hc Hq Hn H1 H2 Hin.
+  rewrite <- (firstn_skipn (S i1) ts) in Hin |- *. rewrite notify_all_app in Hin |- *.
+  set (s1 := notify_all s (firstn (S i1) ts)) in *.
+  destruct (notify_all_prefix (skipn (S i1) ts) s1) as [extra He]. rewrite He in Hin |- *.
+  destruct (notify_all_spec (firstn (S i1) ts) s) as [_ [_ [Cq _]]].
+  assert (In1 : In e1 (st_queue s1)).
+  { apply Cq. right. exists t1. split; [|exact H1].
+    apply (nth_error_In (firstn (S i1) ts) i1). rewrite nth_error_firstn; [exact Hn | lia]. }
+  assert (Nin2 : ~ In e2 (st_queue s1)).
+  { intros H. apply Cq in H. rewrite Hq in H. destruct H as [[]|[t [Ht Hs]]].
+    apply In_nth_error in Ht. destruct Ht as [j Hj].
+    assert (j < S i1).
+    { assert (Hl : j < length (firstn (S i1) ts)) by (apply nth_error_Some; congruence).
+      rewrite firstn_length in Hl. lia. }
+    rewrite nth_error_firstn in Hj by lia. apply (H2 j t); [lia | exact Hj | exact Hs]. }
+  exists (st_queue s1), extra. repeat split; auto.
+  apply in_app_iff in Hin. destruct Hin as [Hin|Hin]; [contradiction | exact Hin].
+Qed.
+
+(** in terms of paths: a reader woken at an earlier position of the notification order
+    (see [wake_pos_spec]) is queued — and, on a FIFO executor, run — before one woken later *)
+Theorem earlier_position_queued_first n s k p e1 e2 r1 r2 i1 i2 :
+  consistent n s -> st_queue s = [] -> reads s e1 [r1] -> reads s e2 [r2] ->
+  wake_pos_k k p r1 = Some i1 -> wake_pos_k k p r2 = Some i2 -> i1 < i2 ->
+  exists q1 q2, st_queue (notify_all s (notified k p)) = q1 ++ q2 /\ In e1 q1 /\ ~ In e2 q1 /\ In e2 q2.
+Proof.
+  intros Hc Hq R1 R2 P1 P2 Hlt. unfold wake_pos_k in *.
+  apply first_hit_spec in P1. destruct P1 as [k1 [t1 [-> [N1 [T1 _]]]]].
+  apply first_hit_spec in P2. destruct P2 as [k2 [t2 [-> [N2 [T2 M2]]]]].
+  cbn [plus] in *.
+  pose proof Hc as [Ia Ib _ _ _].
+  assert (S1 : sub_in s e1 t1).
+  { apply Ib; [rewrite Hq; intros []|]. apply R1. exists r1. split; [left; reflexivity | apply trig_in_In; exact T1]. }
+  apply (notify_all_order n s (notified k p) e1 e2 k1 t1 Hc Hq N1 S1).
+  - intros j t Hj Hn Hs. apply Ia in Hs. apply R2 in Hs. destruct Hs as [r [[<-|[]] Hin]].
+    apply trig_in_In in Hin. rewrite (M2 j t ltac:(lia) Hn) in Hin. discriminate.
+  - apply (notify_all_wakes n s _ e2 Hc Hq). exists t2. split; [eapply nth_error_In; exact N2|].
+    apply R2. exists r2. split; [left; reflexivity | apply trig_in_In; exact T2].
+Qed.
+
+(** readers of (strict) ancestors of the written field are queued before readers of deeper fields *)
+Theorem ancestor_reader_queued_first n s p e1 e2 r1 r2 :
+  consistent n s -> st_queue s = [] -> reads s e1 [r1] -> reads s e2 [r2] ->
+  is_prefix r1 p = true -> (is_prefix r2 p = true \/ is_prefix p r2 = true) -> length r1 < length r2 ->
+  exists q1 q2, st_queue (notify_all s (notified WField p)) = q1 ++ q2 /\ In e1 q1 /\ ~ In e2 q1 /\ In e2 q2.
+Proof.
+  intros Hc Hq R1 R2 A1 A2 Hlen.
+  assert (P1 : wake_pos p r1 = Some (length r1)) by (rewrite wake_pos_spec, A1; reflexivity).
+  assert (P2 : exists i2, wake_pos p r2 = Some i2).
+  { rewrite wake_pos_spec. destruct (is_prefix r2 p) eqn:E; [eauto|]. destruct A2 as [A2|A2]; [discriminate|].
+    rewrite A2. eauto. }
+  destruct P2 as [i2 P2].
+  destruct (ancestors_before_descendants p r1 r2 _ _ P1 P2 ltac:(lia)) as [_ Hs].
+  apply (earlier_position_queued_first n s WField p e1 e2 r1 r2 (length r1) i2); auto.
+Qed.
